@@ -170,6 +170,10 @@ func (r *RoundTripper) RoundTripOpt(req *http.Request, opt RoundTripOpt) (*http.
 		if req.Context().Err() == nil && (errors.Is(cl.dialErr, context.Canceled) || errors.Is(cl.dialErr, context.DeadlineExceeded)) && !opt.OnlyCachedConn {
 			return r.RoundTripOpt(req, opt)
 		}
+		if opt.OnlyCachedConn {
+			// a dial that failed is not a cached connection: the caller sends the request elsewhere
+			return nil, ErrNoCachedConn
+		}
 		closeRequestBody(req)
 		return nil, cl.dialErr
 	}
